@@ -104,7 +104,7 @@ ClauseNames ==
     "C10_unchanged",
     "C11_invalid_refused", "C11_adds_exactly", "C11_preserves",
     "C12_function_of_log", "C12_reads_pure", "C12_history_grows", "C12_readable", "C12_consistent",
-    "C14_ref", "C14_epics_flat", "C14_bad_refused",
+    "C14_ref", "C14_epics_flat", "C14_bad_refused", "C14_compact_keeps",
     "C15_progress", "C15_waits", "C15_claim",
     "C16_one_value", "C16_truth",
     "C20_only_grow", "C20_confined", "C20_live_only", "C20_faithful",
@@ -123,7 +123,7 @@ ClauseNames ==
     "C01_nowait",
     "C03_readable", "C03_only_own_missing", "C03_continues", "C04_all_or_nothing",
     "C18_where", "C18_same_store", "C18_lands", "C18_reads_work", "C18_lock", "C18_init",
-    "C19_all_once", "C19_active_once", "C19_ready_exact", "C19_known_rows", "C19_tree", "C19_summary", "C19_empty", "C19_fits", "C19_idcol", "C19_utf8",
+    "C19_summary_noready", "C19_ready_rows", "C19_all_once", "C19_active_once", "C19_ready_exact", "C19_known_rows", "C19_tree", "C19_summary", "C19_empty", "C19_fits", "C19_idcol", "C19_utf8",
     "C12_file_total", "C12_file_names_line", "C12_file_shows", "C12_file_deterministic", "C12_file_pure",
     "C17_roundtrip", "C17_stays", "C17_accepted", "C17_overlimit",
     "R_step", "R_reply", "R_time", "R_preview", "R_faillog" }
@@ -169,6 +169,7 @@ Eval(n, o) ==
     [] n = "C14_ref" -> P!C14_ref(o)
     [] n = "C14_epics_flat" -> P!C14_epics_flat(o)
     [] n = "C14_bad_refused" -> P!C14_bad_refused(o)
+    [] n = "C14_compact_keeps" -> P!C14_compact_keeps(o)
     [] n = "C15_progress" -> P!C15_progress(o)
     [] n = "C15_waits" -> P!C15_waits(o)
     [] n = "C15_claim" -> P!C15_claim(o)
@@ -209,6 +210,8 @@ Eval(n, o) ==
     [] n = "C18_reads_work" -> FS!C18_reads_work(NormFS(o.fs))
     [] n = "C18_lock" -> FS!C18_lock(NormFS(o.fs))
     [] n = "C18_init" -> FS!C18_init(NormFS(o.fs))
+    [] n = "C19_summary_noready" -> HL!C19_summary_noready(NormHL(o.hl))
+    [] n = "C19_ready_rows" -> HL!C19_ready_rows(NormHL(o.hl))
     [] n = "C19_all_once" -> HL!C19_all_once(NormHL(o.hl))
     [] n = "C19_active_once" -> HL!C19_active_once(NormHL(o.hl))
     [] n = "C19_ready_exact" -> HL!C19_ready_exact(NormHL(o.hl))
@@ -249,7 +252,7 @@ ConcNames == {"C01_serial", "C01_no_double", "C01_outcomes", "C01_winner_holds",
               "C08_serial",
               "C01_nowait",
               "C03_readable", "C03_only_own_missing", "C03_continues", "C04_all_or_nothing"}
-TextNames == {"C17_overlimit", "C12_file_total", "C12_file_names_line", "C12_file_shows", "C12_file_deterministic", "C12_file_pure", "C19_all_once", "C19_active_once", "C19_ready_exact", "C19_known_rows", "C19_tree", "C19_summary", "C19_empty", "C19_fits", "C19_idcol", "C19_utf8", "C17_roundtrip", "C17_stays", "C17_accepted", "C18_where", "C18_same_store", "C18_lands", "C18_reads_work", "C18_lock", "C18_init"}
+TextNames == {"C19_summary_noready", "C19_ready_rows", "C17_overlimit", "C12_file_total", "C12_file_names_line", "C12_file_shows", "C12_file_deterministic", "C12_file_pure", "C19_all_once", "C19_active_once", "C19_ready_exact", "C19_known_rows", "C19_tree", "C19_summary", "C19_empty", "C19_fits", "C19_idcol", "C19_utf8", "C17_roundtrip", "C17_stays", "C17_accepted", "C18_where", "C18_same_store", "C18_lands", "C18_reads_work", "C18_lock", "C18_init"}
 Wanted(r) == IF "only" \in DOMAIN r THEN ToSet(r.only) \cap ClauseNames ELSE ClauseNames \ (ConcNames \cup TextNames)
 
 Init == i = 0 /\ bad = {}
